@@ -301,6 +301,11 @@ def pfile_tables(P, headers):
     for ei, e in enumerate(P.enums):
         L.append('  &%s__descriptor,' % lc_name(P, P.enum_full(ei), e.infile))
     L.append('};')
+    L.append('static const ProtobufCServiceDescriptor *pbcv_gen_svcs[] = {')
+    for sname, methods in P.services:
+        full = '.'.join(([P.pkg[0]] if P.pkg[0] else []) + [sname])
+        L.append('  &%s__descriptor,' % lc_name(P, full, 0))
+    L.append('  0 };')
     api, refs, partial = [], [], []
     alltext = '\n'.join(headers.values())
     for mi in range(len(sch.msgs)):
